@@ -69,7 +69,95 @@ def run(ctx):
     # the mere existence of storage.  This is rule R06.3 evaluated for this property.
     from . import c06
     r2 = c06.r06_3(ctx.prog("S"), load_tables("c06"), rid="R13.2")
-    return [r, r2]
+    return [r, r2, r13_3(ctx.prog("S"), tab)]
+
+
+def _is_raw(n):
+    return isinstance(n, list) and n and n[0] == "bin" and n[1] == "+" and any(m[0] == "member" and m[2] == "memb_offset" for m in walk(n))
+
+
+def _find_raw(t, chain=()):
+    if not isinstance(t, list) or not t:
+        return
+    if _is_raw(t):
+        yield t, chain
+        return
+    for c in t[1:]:
+        if isinstance(c, list):
+            if c and isinstance(c[0], str):
+                yield from _find_raw(c, chain + (t,))
+            else:
+                for cc in c:
+                    yield from _find_raw(cc, chain + (t,))
+
+
+def _atf_polarity(t):
+    """True: condition true means `stored through a pointer`; False: true means by value; None: not an ATF_POINTER test"""
+    from ..model import strip_casts
+    t = strip_casts(t)
+    neg = False
+    while isinstance(t, list) and t and t[0] == "un" and t[1] == "!":
+        t = strip_casts(t[2])
+        neg = not neg
+    if isinstance(t, list) and t and t[0] == "bin" and t[1] == "&" and any(n[0] == "enum" and n[1] == "ATF_POINTER" for n in walk(t)):
+        return not neg
+    return None
+
+
+def r13_3(prog, tab):
+    """-findirect-choice / -fwide-types / recursion breaking decide, per member, whether the structure holds the value
+    or a pointer to it (ATF_POINTER).  Every computation of a member's storage address (`base + elm->memb_offset`)
+    in the runtime must sit on an edge of a test of ATF_POINTER, and be read as pointer-to-pointer exactly on the
+    pointer edge.  An address used before the test hands `the slot` to code that expects `the value` in one of the two
+    representations: the builds then disagree on the bytes."""
+    from ..model import tree_text
+    r = Rule("R13.3", "a member's storage address is interpreted only after ATF_POINTER was tested, as pointer-to-pointer exactly on the pointer edge", floor=80)
+    exc = {(x["function"], x["key"]): x["reason"] for x in tab.get("r13_3_exceptions", [])}
+    for f in sorted(prog.funcs.values(), key=lambda f: f.key):
+        tests = []
+        for b in f.blocks.values():
+            if b.term and "cond" in b.term and len(b.succ) >= 2 and b.term["kind"] != "SwitchStmt":
+                p = _atf_polarity(b.term["cond"]["tree"])
+                if p is not None:
+                    tests.append((b.id, p))
+        n = 0
+        seen = set()
+        dups = {}
+        for b, line, tree in sorted(f.all_trees(), key=lambda x: (x[1] or 0, x[0].id)):
+            for raw, chain in _find_raw(tree):
+                sig = (b.id, line, tree_text(raw), len(chain))
+                if sig in seen:
+                    continue
+                seen.add(sig)
+                n += 1
+                txt = tree_text(raw)[:48]
+                dups[txt] = dups.get(txt, 0) + 1
+                key = "raw:%s%s" % (txt, "" if dups[txt] == 1 else "#%d" % dups[txt])
+                g = None
+                for tb, p in tests:
+                    for idx in (0, 1):
+                        if f.edge_dominates(tb, idx, b.id):
+                            g = p if idx == 0 else (not p)
+                stars = 0
+                for a in reversed(chain):
+                    if a[0] == "cast":
+                        stars = max(stars, a[1].count("*"))
+                    elif a[0] in ("iconv", "decay", "stmtexpr"):
+                        continue
+                    else:
+                        break
+                if (f.name, key) in exc:
+                    r.exc(f, key, exc[(f.name, key)], line)
+                elif g is None:
+                    r.bad(f, key, "`%s` is computed and used without a dominating test of ATF_POINTER: for a member stored through a "
+                                  "pointer this is the address of the pointer, not of the value" % tree_text(raw), line)
+                elif g and stars < 2:
+                    r.bad(f, key, "on the ATF_POINTER edge `%s` is not read as a pointer to the member pointer" % tree_text(raw), line)
+                elif (not g) and stars >= 2:
+                    r.bad(f, key, "on the by-value edge `%s` is read as a pointer to a pointer" % tree_text(raw), line)
+                else:
+                    r.ok(f, key, "%s edge, read as %s" % ("pointer" if g else "by-value", "pointer-to-pointer" if stars >= 2 else "the value's address"), line)
+    return r
 
 
 def thorough(ctx):
